@@ -87,6 +87,7 @@ type tagEval struct {
 	maxVisits   int // loop unrolling bound per path (default 2)
 	loadHookEnv func(load *ssa.UnOp, val func(ssa.Value) aval) (aval, bool)
 	storeObs    func(st *ssa.Store, v aval, val func(ssa.Value) aval)
+	binopHook   func(bo *ssa.BinOp) (aval, bool)
 	globals map[*ssa.Global]map[string]constant.Value // string-keyed constant maps built in init
 	tables  map[*ssa.Global]map[int64]*ssa.Function   // package-level arrays/maps of functions, by constant index
 }
@@ -458,6 +459,12 @@ func (te *tagEval) run(fr *frame, b *ssa.BasicBlock, pred *ssa.BasicBlock, depth
 					}
 				}
 			case *ssa.BinOp:
+				if te.binopHook != nil {
+					if r, ok := te.binopHook(x); ok {
+						fr.env[x] = r
+						continue
+					}
+				}
 				a, bb := te.val(fr, x.X), te.val(fr, x.Y)
 				if r, ok := te.binop(x.Op, a, bb); ok {
 					fr.env[x] = r
